@@ -43,10 +43,10 @@ type C02Case struct {
 	// each order plan, over the same simulated home directory; stdout must be byte-identical.
 	// Warmup: other requests sent to database A before the measured calls (B stays fresh): an answer must
 	// not depend on what the database was asked before.
-	Warmup []C02Warm `json:"warmup,omitempty"`
-	Proc    bool     `json:"separate_processes,omitempty"`
-	Markers []string `json:"markers,omitempty"` // project marker files: the context analyzer's boost maps are walked too
-	Format  string   `json:"format,omitempty"`
+	Warmup  []C02Warm `json:"warmup,omitempty"`
+	Proc    bool      `json:"separate_processes,omitempty"`
+	Markers []string  `json:"markers,omitempty"` // project marker files: the context analyzer's boost maps are walked too
+	Format  string    `json:"format,omitempty"`
 }
 
 type C02Warm struct {
@@ -113,9 +113,21 @@ func genC02(rt *rapid.T) C02Case {
 			return w
 		}), 1, 4).Draw(rt, "warmup")
 	}
-	if !c.Shipped && rapid.IntRange(0, 59).Draw(rt, "proc") == 30 {
+	if !c.Shipped && rapid.IntRange(0, 29).Draw(rt, "proc") == 15 {
 		c.Proc = true
-		c.Markers = rapid.SliceOfNDistinct(rapid.SampledFrom(c17Markers), 0, 4, rapid.ID[string]).Draw(rt, "markers")
+		c.Markers = rapid.SliceOfNDistinct(rapid.SampledFrom(c17Markers), 0, 6, rapid.ID[string]).Draw(rt, "markers")
+		if rapid.Bool().Draw(rt, "ctxwords") {
+			// a query and an entry that use words the detected project types boost
+			w1, w2 := rapid.SampledFrom(contextWords).Draw(rt, "ctxw1"), rapid.SampledFrom(contextWords).Draw(rt, "ctxw2")
+			c.Query = w1 + " " + genWord(rt, "ctxq")
+			for i := range c.DB {
+				if i%2 == 0 {
+					c.DB[i].Description += " " + w1
+				} else {
+					c.DB[i].Command += " " + w2 + " " + w1
+				}
+			}
+		}
 		c.Format = rapid.SampledFrom([]string{"json", "list", "table"}).Draw(rt, "format")
 	}
 	return c
